@@ -6,18 +6,29 @@ import (
 	"go/token"
 	"go/types"
 	"strings"
+	"unicode"
 
 	"golang.org/x/tools/go/ssa"
 )
 
+const hardLoopCap = 20000
+
 func (e *Engine) exec(fr *Frame) Value {
 	var prev *ssa.BasicBlock
 	b := fr.fn.Blocks[0]
+	symArrive := false // the branch that led to this block had a symbolic condition
 	for {
+		// The unwind bound limits iterations that depend on symbolic data; loops
+		// whose every branch condition is concrete (table initialisation, walks
+		// over concrete-length containers) only have the hard cap.
 		fr.visits[b]++
-		if fr.visits[b] > e.sh.unwind {
+		if symArrive {
+			fr.symVisits[b]++
+		}
+		if fr.symVisits[b] > e.sh.unwind || fr.visits[b] > hardLoopCap {
 			panic(pathEnd{"unwind", fmt.Sprintf("%s block %d exceeded unwind %d", fr.fn.String(), b.Index, e.sh.unwind)})
 		}
+		symArrive = false
 		// phis first (parallel assignment)
 		nphi := 0
 		var phiVals []Value
@@ -43,6 +54,7 @@ func (e *Engine) exec(fr *Frame) Value {
 			switch in := in.(type) {
 			case *ssa.If:
 				c := e.get(fr, in.Cond).(*Term)
+				symArrive = !c.konst
 				if e.decide(c) {
 					next = b.Succs[0]
 				} else {
@@ -106,6 +118,41 @@ func (e *Engine) globalSlot(g *ssa.Global) *Value {
 		case types.Identical(elem, types.Universe.Lookup("error").Type()):
 			// sentinel errors (io.EOF, strconv.ErrSyntax, ...): one distinct error each
 			*s = e.newError(mkStr(g.String()))
+		case g.String() == "unicode.properties":
+			// the Latin-1 property table, rebuilt from the exported predicates
+			av := zero(elem).(*ArrayVal)
+			for c := 0; c < len(av.elems); c++ {
+				r := rune(c)
+				var p int64
+				if unicode.IsControl(r) {
+					p |= 1
+				}
+				if unicode.IsPunct(r) {
+					p |= 2
+				}
+				if unicode.IsNumber(r) {
+					p |= 4
+				}
+				if unicode.IsSymbol(r) {
+					p |= 8
+				}
+				if unicode.Is(unicode.Z, r) {
+					p |= 16
+				}
+				switch {
+				case unicode.IsUpper(r):
+					p |= 32
+				case unicode.IsLower(r):
+					p |= 64
+				case unicode.IsLetter(r):
+					p |= 32 | 64
+				}
+				if unicode.IsPrint(r) {
+					p |= 128
+				}
+				av.elems[c] = mkInt(p)
+			}
+			*s = av
 		case g.String() == "strings.asciiSpace" || g.String() == "bytes.asciiSpace":
 			av := zero(elem).(*ArrayVal)
 			for _, c := range []int{'\t', '\n', '\v', '\f', '\r', ' '} {
